@@ -617,5 +617,41 @@ def Form.wf (M : Meta) (f : Form) : Bool :=
   (f.ops.drop f.arity).all (fun s => s.impl && (implReg M s.ty).isSome && s.act ≤ 3) &&
   (1 ≤ f.cls && f.cls ≤ M.sffxsClsSets.length) && (1 ≤ f.isa && f.isa ≤ M.isasLists.length)
 
+/-! ## Branch / terminal attributes from the mnemonic
+
+What x86 control flow says about a mnemonic, independently of the feature
+column of the form table (and of the generator that writes it): the `J…`
+mnemonics are the jumps (`JMP` unconditional, every other one conditional —
+`Jcc`, `JCXZL`, `JCXZQ`), `RET` leaves the function, nothing else is a branch
+(`CALL` returns to the next instruction).  Mnemonics are given as keys
+(`Name.key`). -/
+
+/-- most significant byte of a key's value: the first character of the name -/
+def firstByte (k : Nat) : Nat :=
+  if Name.klen k = 0 then 0 else Name.kval k >>> (8 * (Name.klen k - 1))
+
+def kJMP : Nat := Name.mkKey 0x4A4D50 3
+def kRET : Nat := Name.mkKey 0x524554 3
+
+/-- (terminal, branch, conditional) of the mnemonic with key `k` -/
+def specFeat (k : Nat) : Bool × Bool × Bool :=
+  let isJ := firstByte k == 0x4A
+  (k == kRET, isJ, isJ && k != kJMP)
+
+/-- the flags of an instruction are those of its mnemonic -/
+def attrsOK (k : Nat) (terminal branch conditional : Bool) : Bool :=
+  terminal == (specFeat k).1 && branch == (specFeat k).2.1 && conditional == (specFeat k).2.2
+
+/-- a form row's feature column says what the mnemonic of its opcode says -/
+def Form.featOK (M : Meta) (f : Form) : Bool :=
+  attrsOK (Name.key (opcString M f.opc)) (hasBit f.feat M.featTerminal) (hasBit f.feat M.featBranch)
+    (hasBit f.feat M.featConditional)
+
+/-- the suffix lists a suffix class accepts, as `sffxscls.SuffixesSet` + `sffxs.Strings` give them -/
+def sfxSetStrings (M : Meta) (cls : Nat) : List (List Nat) :=
+  match cls with
+  | 0 => []
+  | c+1 => (M.sffxsClsSets.getD c []).map (sfxStrings M)
+
 end Instr
 end Avo
